@@ -43,7 +43,7 @@ def gen_cases(rng, tier, rnd):
             cases.append(c)
             continue
         elif kind == 'pda':
-            a = genpda.abstract_pda(rng)
+            a = {**genpda.ambiguous_stack_pda(rng), 'keep_gamma': True} if rng.random() < 0.08 else genpda.abstract_pda(rng)
             c['spec'], c['rank'] = genfa.rename(a, rng)
             steps = []
             for _ in range(3):
